@@ -305,6 +305,8 @@ HEAVY_WEIGHTS = {'gcd': 3, 'lcm': 2, 'gcdext': 3, 'inverse': 2, 'gcp2': 1}
 # reduced budget for the many-subset configurations: the protocols that open a statistically masked value
 MASKED_WEIGHTS = {'lt': 4, 'le': 2, 'gt': 2, 'ge': 2, 'eq': 3, 'ne': 1, 'sgn': 3, 'sgn_lt': 2, 'sgn_eq': 1, 'abs': 3,
                   'lsb': 4, 'mod': 5, 'floordiv': 2, 'rshift': 2, 'trunc': 3, 'gcp2': 1, 'min': 1, 'max': 1, 'sub': 2, 'add': 1}
+# l = 64 > 2k: is_zero / == / != go through the probabilistic Legendre-symbol test _is_zero
+ZERO64_WEIGHTS = {'eq': 4, 'ne': 2, 'is_zero': 4, 'sub': 1, 'add': 1, 'neg': 1}
 MANY_SUBSETS = [(7, 3, False), (6, 2, False)]          # PRSS with comb(m,t) = 35 / 15 subsets
 
 
@@ -904,6 +906,30 @@ def check_mask_bounds(ctx, which, k=30):
 
 
 # ------------------------------------------------------------------------------------------------
+# Deterministic round budgets: every simulator run is bounded, so the check terminates on broken code
+# (livelock: e.g. a retry loop that never succeeds keeps messages flowing, so idle detection never fires).
+# Clean-tree measurements (quick+thorough, all configurations): FIFO delivery needs <= ~600 rounds for a light
+# program, <= ~60 rounds per divstep iteration for a gcd-type operation; RandomOrder delivery up to ~30x that.
+# base = generous estimate of the clean-tree need; budget = 50 x base (FIFO), 20 x 30 x base (RandomOrder), < 5*10^6.
+MAX_LIVELOCK_REPORTS = 3
+ROUND_CAP = 4500000
+
+
+def round_budget(program, random_order):
+    l = program['l']
+    base = 400
+    for ins in program['instrs']:
+        base += {'gcd': 100, 'lcm': 110, 'gcdext': 130, 'inverse': 130}.get(ins[0], 0) * (3 * l + 5) + (200 if ins[0] == 'gcp2' else 60)
+    return min(ROUND_CAP, (600 if random_order else 50) * base)
+
+
+def note_rounds(ctx, key, rounds, budget):
+    d = ctx.extra.setdefault('rounds_observed_max', {})
+    if rounds > d.get(key, [0, 0])[0]:
+        d[key] = [rounds, budget]
+
+
+# ------------------------------------------------------------------------------------------------
 # list-aliasing stream: call a list-taking API, mutate the caller's list in place, then open the result
 
 MUTATIONS = {
@@ -966,10 +992,11 @@ def alias_stream(ctx, Sim):
         base = [3, -5, 7, rng.choice([-2, 2, 4])]
         bits = [1, 0, 1, 1]
         for muts in (('reverse', 'overwrite'), ('del', 'append')):
-            sim = Sim(m=m, t=t, no_prss=rng.random() < 0.5, seed=ctx.seed * 17 + m)
+            sim = Sim(m=m, t=t, no_prss=rng.random() < 0.5, seed=ctx.seed * 17 + m, log_messages=False, track_tasks=False)
             try:
                 sim.start()
-                res = sim.run(alias_prog(l, base, bits, muts, names), idle_limit=100000, max_rounds=10 ** 12)
+                res = sim.run(alias_prog(l, base, bits, muts, names), idle_limit=300000, max_rounds=300000)
+                note_rounds(ctx, 'alias', sim.rounds, 300000)
                 for name in names:
                     for mn in muts:
                         if name in ('all', 'any'):
@@ -1035,7 +1062,7 @@ def run(ctx):
                  (32, 8, 16, LIGHT_WEIGHTS, 3, 'light'), (64, 5, 6, LIGHT_WEIGHTS, 1, 'light'),
                  (8, 6, 3, HEAVY_WEIGHTS, 3, 'heavy'), (16, 6, 1, HEAVY_WEIGHTS, 1, 'heavy')]
     plan += [(8, 6, 12, MASKED_WEIGHTS, 2, 'masked'), (16, 6, 12, MASKED_WEIGHTS, 2, 'masked'),
-             (32, 6, 12, MASKED_WEIGHTS, ctx.n(2, 3), 'masked')]
+             (32, 6, 12, MASKED_WEIGHTS, ctx.n(2, 3), 'masked'), (64, 6, 7, ZERO64_WEIGHTS, ctx.n(1, 3), 'light')]
     programs = []
     for (l, nin, nops, w, cnt, tag) in plan:
         for _ in range(cnt):
@@ -1057,10 +1084,16 @@ def run(ctx):
     import time
     impl_obs = []        # (l, op, operand values, params, outputs of party 0) for the model comparison
     per_config = {}
+    livelocks = [0]
     for (m, t, np_) in configs:
+        if livelocks[0] >= MAX_LIVELOCK_REPORTS:
+            ctx.log('%d no-progress reports: remaining configurations skipped' % livelocks[0])
+            ctx.notes.append('remaining configurations skipped after %d no-progress reports' % livelocks[0])
+            break
         t0 = time.time()
         def fresh_sim(extra=0):
-            sm = Sim(m=m, t=t, no_prss=np_, seed=ctx.seed * 131 + m * 7 + t + (1000 if np_ else 0) + 7919 * extra)
+            sm = Sim(m=m, t=t, no_prss=np_, seed=ctx.seed * 131 + m * 7 + t + (1000 if np_ else 0) + 7919 * extra,
+                     log_messages=False, track_tasks=False)      # no per-message logs: bounded memory
             st = sm.start()
             if not sm.started:
                 sm.close()
@@ -1083,18 +1116,33 @@ def run(ctx):
                 r = rng.random()
                 receivers = None if r < 0.6 or m == 1 else sorted(rng.sample(range(m), rng.randint(1, m)))
                 policy = Fifo() if rng.random() < 0.7 else RandomOrder(random.Random(rng.randrange(1 << 30)), lazy=0.1)
-                # idle_limit detects a deadlock; max_rounds must never cut a long but progressing run
-                res = sim.run(make_prog(program, receivers), policy, idle_limit=300000, max_rounds=10 ** 12)
+                # every run is bounded by a deterministic round budget (see round_budget); idle rounds count too
+                ro = isinstance(policy, RandomOrder)
+                budget = round_budget(program, ro)
+                res = sim.run(make_prog(program, receivers), policy, idle_limit=budget, max_rounds=budget)
+                note_rounds(ctx, '%s l=%d %s' % (tag, program['l'], 'RandomOrder' if ro else 'Fifo'), sim.rounds, budget)
                 if unfinished(res):
-                    # unfinished / exception: the runtimes are in an undefined state. Re-run this program once in a
-                    # fresh simulator (FIFO delivery) before reporting, so that a harness artefact is not reported.
+                    # unfinished / exception: the runtimes are in an undefined state. Re-run this program once, alone, in
+                    # a fresh simulator (FIFO delivery, same kind of budget) before anything is reported.
                     first = repr(res)[:600]
                     sim.close()
                     sim = fresh_sim(extra=pno + 1)
                     if sim is None:
                         break
-                    res = sim.run(make_prog(program, receivers), Fifo(), idle_limit=600000, max_rounds=10 ** 12)
+                    budget = round_budget(program, False)
+                    res = sim.run(make_prog(program, receivers), Fifo(), idle_limit=budget, max_rounds=budget)
                     ctx.notes.append('program %d re-run in a fresh simulator for m=%d t=%d no_prss=%s (first attempt: %s)' % (pno, m, t, np_, first[:200]))
+                    if any(x == 'PENDING' for x in res) and not any(isinstance(x, tuple) and x and x[0] == 'EXC' for x in res):
+                        ctx.case({'prog': pno, 'm': m, 't': t, 'no_prss': np_, 'livelock': True}, kind='no-progress')
+                        ctx.violation('no-progress/livelock program=%d l=%d m=%d t=%d %s' % (pno, program['l'], m, t, 'noPRSS' if np_ else 'PRSS'),
+                                      {'m': m, 't': t, 'no_prss': np_, 'receivers': receivers, 'program': program,
+                                       'round_budget': budget, 'rounds': sim.rounds,
+                                       'what': 'the program did not finish within its round budget, twice (second time alone in a fresh '
+                                               'simulator with FIFO delivery): livelock or deadlock', 'first_attempt': first})
+                        livelocks[0] += 1
+                        sim.close()
+                        sim = None
+                        break                   # go on with the next configuration
                 nrun += 1
                 bad = check_outputs(program, vals, kinds, res, receivers, m)
                 key = {'prog': pno, 'm': m, 't': t, 'no_prss': np_, 'recv': receivers}
